@@ -1,1 +1,9 @@
-//! Shared fixtures of the v_kip monitors.
+//! Shared fixtures of the v_kip monitors (C15, C16): harness-side tokenizer and metamorphic
+//! renderers, the grammar-derived sentence generator, token-level mutators, the corpus loader
+//! and the child-process runner that attributes parser aborts to inputs.
+pub mod corpus;
+pub mod generate;
+pub mod lex;
+pub mod mutate;
+pub mod families;
+pub mod proc;
